@@ -14,7 +14,9 @@ RULE = ("cases: (a) secp256k1_ecdh with secrets from the 256-bit edge set (0, 1,
         "peer's secret is known; (b) ellswift_decode of 64-byte strings: u, t from the edge set incl. 0, p, p+1, >= p, 2^256-1, the u^3+t^2+7=0 family (t "
         "solved from u, both roots, +p aliases), doubly exceptional inputs, and encodings made by the reference inverse map for a chosen x and branch; "
         "(c) ellswift_encode / ellswift_create round trips for points of both parities and edge randomness; (d) ellswift_xdh for both parties with "
-        "encodings made by create, by the reference encoder or arbitrary strings, hashers bip324 | prefix | callback | failing callback. Oracle: "
+        "encodings made by create, by the reference encoder or arbitrary strings, hashers bip324 | prefix | callback | failing callback; (e) batches of 8..32 "
+        "secrets (uniform, edge, and scalars built so that the two 129-bit halves of the constant-time multiplier's recoded scalar carry all-ones / all-zeros / "
+        "single-bit 5-bit groups) against one peer: secret*Peer via ecdh / xdh must equal ec_pubkey_tweak_mul, one product per batch anchored to the model. Oracle: "
         "pyref.ecdh / pyref.ellswift (validated against the BIP-324 vectors). non-trivial = edge or invalid secret, special-case or >= p (u,t), "
         "non-default hasher, peer not a plain multiple of G")
 ASSUMPTIONS = ["pyref.ellswift implements f(u,t) of include/secp256k1_ellswift.h and BIP-324 (validated against BIP-324 decode / inverse / ECDH vectors)",
@@ -398,6 +400,77 @@ def run_xdh(env, case):
     return nt, classes
 
 
+# ------------------------------------------------------------------ (e) many multiplications per case: the constant-time multiplier
+# secret*Peer through secp256k1_ecdh / secp256k1_ellswift_xdh (constant-time, signed-digit + endomorphism) must equal secret*Peer through
+# ec_pubkey_tweak_mul (variable-time, different algorithm); one product per batch is also anchored to the reference model.  Secrets: edge set, uniform,
+# and scalars whose two 129-bit halves after the multiplier's documented preprocessing q -> (q+K)/2 -> split -> +2^128 carry chosen 5-bit group patterns.
+LADDER_K = (2 ** 130 - 2 ** 129 - 1) * (1 + ec.LAMBDA) % N      # K of the comment in ecmult_const_impl.h for 130 processed bits
+
+
+def ladder_scalar(v1, v2):
+    s = ((v1 - (1 << 128)) + ec.LAMBDA * (v2 - (1 << 128))) % N
+    return (2 * s - LADDER_K) % N
+
+
+@st.composite
+def _patterned_half(draw):
+    """a 129-bit value whose 5-bit groups are mostly all-ones / all-zeros / single-bit, rest random"""
+    v = draw(st.integers(0, (1 << 128) - 1)) | (draw(st.integers(0, 1)) << 128)
+    for _ in range(draw(st.integers(1, 8))):
+        g = draw(st.integers(0, 25))
+        pat = draw(st.sampled_from([0, 31, 1, 16, 15, 30]))
+        v = (v & ~(31 << (5 * g))) | (pat << (5 * g))
+    return v & ((1 << 129) - 1)
+
+
+ladder_secret = st.one_of(st.builds(ladder_scalar, _patterned_half(), _patterned_half()).map(lambda q: q or 1), st.integers(1, N - 1), st.integers(1, N - 1),
+                          gens.seckey_valid)
+
+
+@st.composite
+def ladder_case(draw):
+    return {"peer": draw(kgens.point_spec), "via": draw(st.sampled_from(["ecdh", "xdh"])), "u0": draw(fe_edge), "c0": draw(st.integers(0, 7)),
+            "secrets": [draw(ladder_secret) for _ in range(draw(st.integers(8, 32)))], "anchor": draw(st.integers(0, 31))}
+
+
+def run_ladder(env, case):
+    lib = env.lib
+    d, ctx = lib.dll, lib.ctx
+    lib.reset()
+    peer = kgens.point_of(case["peer"])
+    via = case["via"]
+    classes = ["via:" + via] + kgens.classes_of_spec(case["peer"])
+    if via == "xdh":
+        u, t, _ = inverse_pair(case["peer"], case["u0"], case["c0"])
+        theirs = b32(u) + b32(t)
+        env.require(E.decode(theirs)[0] == peer[0], "reference inconsistency: inverse map does not round-trip")
+        ours = ec.sha256(b"ours") + ec.sha256(b"ours2")
+    pk = lib.pubkey_from_point(peer)
+    anchor = case["anchor"] % len(case["secrets"])
+    for i, sk in enumerate(case["secrets"]):
+        skb = b32(sk)
+        if via == "ecdh":
+            r, out, rec, _ = call_ecdh(env, pk, skb, "py")
+            env.require(r == 1 and len(rec) == 1, "secp256k1_ecdh failed for a valid secret", sk=hex(sk))
+            gx, gy = rec[0][0], rec[0][1]
+        else:
+            r, out, rec, _ = call_xdh(env, ours, theirs, skb, 0, "py", b"")
+            env.require(r == 1 and len(rec) == 1, "ellswift_xdh failed for a valid secret", sk=hex(sk))
+            gx, gy = rec[0][0], None
+        pk2 = buf(64, pk.raw)
+        env.require(d.secp256k1_ec_pubkey_tweak_mul(ctx, pk2, skb) == 1, "ec_pubkey_tweak_mul failed for a valid tweak")
+        s65 = lib.pubkey_serialize(pk2, compressed=False)
+        env.require(gx == s65[1:33] and (gy is None or gy == s65[33:65]),
+                    "constant-time multiplication (%s) disagrees with ec_pubkey_tweak_mul for the same secret and point" % via,
+                    sk=hex(sk), peer=ec.ser33(peer).hex(), ct_x=gx.hex(), var_x=s65[1:33].hex())
+        if i == anchor:
+            m = ec.mul(sk, peer)
+            env.require(s65 == ec.ser65(m), "secret*Peer differs from the group law (both library multipliers agree with each other)", sk=hex(sk))
+    quiet(env, "ladder")
+    classes.append("batch:%s" % ("8-15" if len(case["secrets"]) < 16 else "16-32"))
+    return True, classes
+
+
 TESTS = [
     Test("ecdh", ecdh_case, run_ecdh, quick=3000, thorough=120000, max_workers=6,
          must_cover=["hash:null", "hash:default", "hash:sha256", "hash:py", "hash:py_fail", "secret:zero", "secret:n", "secret:overflow", "secret:edge",
@@ -411,4 +484,5 @@ TESTS = [
     Test("xdh", xdh_case, run_xdh, quick=2400, thorough=100000, max_workers=8,
          must_cover=["hash:bip324", "hash:prefix", "hash:py", "hash:py_fail", "both_parties_agree", "secret:invalid", "secret:edge", "theirs:remap:dbl",
                      "theirs:remap:u0", "theirs:remap:t0", "theirs:branch:x1", "theirs:branch:x2", "theirs:branch:x3", "theirs:u>=p", "theirs:t>=p"]),
+    Test("ladder", ladder_case, run_ladder, quick=1500, thorough=60000, max_workers=8, must_cover=["via:ecdh", "via:xdh", "batch:16-32", "pt:tiny_x"]),
 ]
